@@ -83,6 +83,7 @@ structure Hist where
   cbs : Array CbEv := #[]
   extra : List Nat := []           -- tasks whose body or callback was entered a second time
   cleanup : Option (Nat × Nat) := none
+  nestedNull : List (Nat × Nat) := []   -- nested execute() calls that returned a null token: (qb, qa)
 deriving Repr, Inhabited
 
 def Hist.body? (h : Hist) (k : Nat) : Option Body := h.bodies.find? (·.k == k)
@@ -91,10 +92,13 @@ def Hist.cleanupBefore (h : Hist) (q : Nat) : Bool := match h.cleanup with | som
 def Hist.cancelledBefore (h : Hist) (k q : Nat) : Bool :=
   match h.cancelOkAt? k with | some c => c.qa < q | none => false
 
-/-- `b` may be picked although `a` is waiting too -/
+/-- `b` may be picked although `a` is waiting too: `b` has the better level, or the same level and `a` was not
+certainly submitted before `b`.  Submission order is the order of the execute() critical sections: `a` before `b`
+iff a's call had returned (`qa`) before b's call began (`qb`) — whichever thread called (loop thread, a callback, a
+task body on a worker: a nested submission is treated like any other). -/
 def notWorse (h : Hist) (b a : Nat) : Bool :=
   let tb := h.tasks[b]!; let ta := h.tasks[a]!
-  tb.lvl < ta.lvl || (tb.lvl == ta.lvl && b ≤ a)
+  tb.lvl < ta.lvl || (tb.lvl == ta.lvl && !(ta.qa < tb.qb))
 
 /-- end of the previous body on the same thread (0 if none): the pick happened after it -/
 def prevEnd (h : Hist) (b : Body) : Nat :=
@@ -155,15 +159,13 @@ def checkQuery (h : Hist) (q : Query) : Option String :=
 
 def checkQueries (h : Hist) : Option String :=
   (firstSome h.queries.toList (checkQuery h)) <|>
-  -- per task: waiting* executing* not-found*
-  firstSome (List.range h.tasks.size) fun k =>
-    let qs := (h.queries.filter (·.k == k)).toList
-    let rec mono : List Query → Nat → Option String
-      | [], _ => none
-      | q :: rest, r =>
-        if q.a.rank < r then some s!"task {k}: answer went back to {q.a.str} at [{q.qb},{q.qa}]"
-        else mono rest (if q.cancelOk then 2 else q.a.rank)
-    mono qs 0
+  -- per task: waiting* executing* not-found*, over every pair of answers whose calls did not overlap
+  -- (the answers may come from different threads)
+  firstSome h.queries.toList fun q =>
+    firstSome h.queries.toList fun p =>
+      if p.k == q.k && p.qa < q.qb && q.a.rank < (if p.cancelOk then 2 else p.a.rank) then
+        some s!"task {q.k}: answer went back from {if p.cancelOk then "cancelled" else p.a.str} at [{p.qb},{p.qa}] to {q.a.str} at [{q.qb},{q.qa}]"
+      else none
 
 def checkSnaps (h : Hist) : Option String :=
   firstSome h.snaps.toList fun sn =>
@@ -224,13 +226,20 @@ def checkWorkers (h : Hist) : Option String :=
       if w.e == 0 || w.e > qa then some s!"worker thread {w.thr} was still running when cleanup() returned at {qa} (its thread function returned at {w.e}): not joined"
       else none
 
+/-- a nested execute() may return a null token only when the pool is no longer ready (cleanup has begun) -/
+def checkNested (h : Hist) : Option String :=
+  firstSome h.nestedNull fun (qb, qa) =>
+    match h.cleanup with
+    | some (cqb, _) => if cqb < qa then none else some s!"execute() from a task body / callback at [{qb},{qa}] returned a null token before cleanup()"
+    | none => some s!"execute() from a task body / callback at [{qb},{qa}] returned a null token although the pool was ready"
+
 def checkOverlap (h : Hist) : Option String :=
   firstSome h.bodies.toList fun b =>
     let n := (h.bodies.filter fun x => x.s < b.s && b.s < x.e).size + 1
     if n > h.max then some s!"{n} task bodies executing at once exceed the maximum of {h.max} workers" else none
 
 def check (h : Hist) : Except String Nat :=
-  match checkBodies h <|> checkCbs h <|> checkQueries h <|> checkSnaps h <|> checkOverlap h <|> checkWorkers h with
+  match checkBodies h <|> checkCbs h <|> checkQueries h <|> checkSnaps h <|> checkOverlap h <|> checkWorkers h <|> checkNested h with
   | some e => .error e
   | none => checkOrder h
 
